@@ -171,4 +171,358 @@ theorem repl_anchored (l : Str) (fuel : Nat) (hf : replRe.size + l.length ≤ fu
         simpa using ha'
     · simp [hx, semiEmpty, resToOpt]
 
+
+/-! ## pattern 2 : the tag pattern, cut into the stages of `matchTagAt` -/
+def m7 (nm val r5 : Str) : Option (Str × Str × Str) :=
+  let r6 := match r5 with | ' ' :: ']' :: _ => r5.drop 1 | _ => r5
+  match r6 with
+  | ']' :: r7 => some (nm, val, r7)
+  | _ => none
+def m5 (nm r4 : Str) : Option (Str × Str × Str) :=
+  let val := r4.takeWhile (· ≠ '"')
+  match r4.drop val.length with
+  | '"' :: r5 => m7 nm val r5
+  | _ => none
+def m3 (nm r3 : Str) : Option (Str × Str × Str) :=
+  match r3 with
+  | ' ' :: '"' :: r4 => m5 nm r4
+  | _ => none
+def m2 (r1 : Str) : Option (Str × Str × Str) :=
+  match r1 with
+  | c :: r2 =>
+    if isUpper c then
+      let more := r2.takeWhile isLetter
+      let r3 := r2.drop more.length
+      if more.isEmpty then none else m3 (c :: more) r3
+    else none
+  | [] => none
+def m1 (r0 : Str) : Option (Str × Str × Str) :=
+  m2 (match r0 with | ' ' :: r => r | _ => r0)
+theorem matchTagAt_eq (s : Str) :
+    matchTagAt s = match s with | '[' :: r0 => m1 r0 | _ => none := by
+  unfold matchTagAt m1 m2 m3 m5 m7
+  rfl
+
+theorem den_R7 (k : St → Re.Res St) (pos : Nat) (r5 : Str) (caps : Caps) (nm val : Str) :
+    den false R7 k ⟨pos, r5, caps⟩ =
+      match m7 nm val r5 with
+      | none => .fail
+      | some (_, _, r7) => k ⟨pos + r5.length - r7.length, r7, caps⟩ := by
+  simp only [R7, spC, den_seq, den_rep_cls, ct_sp, repDen_opt]
+  cases r5 with
+  | nil => simp [m7, den_lit_nil]
+  | cons x xs =>
+    by_cases hx : x = ' '
+    · subst hx
+      cases xs with
+      | nil => simp [m7, den_lit_cons, den_lit_nil]
+      | cons y ys =>
+        by_cases hy : y = ']'
+        · subst hy
+          simp [m7, den_lit_cons, orFail_self_fail]
+          apply st_pos_congr; omega
+        · simp [m7, den_lit_cons, hy]
+    · by_cases hx2 : x = ']'
+      · subst hx2
+        simp [m7, den_lit_cons]
+        apply st_pos_congr; omega
+      · simp [m7, den_lit_cons, hx, hx2]
+
+
+theorem takeWhile_len_le (p : Char → Bool) (l : List Char) : (l.takeWhile p).length ≤ l.length := by
+  induction l with
+  | nil => simp
+  | cons x xs ih => by_cases hp : p x = true <;> simp [List.takeWhile_cons, hp]; omega
+theorem drop_takeWhile_len (p : Char → Bool) (l : List Char) : l.drop (l.takeWhile p).length = l.dropWhile p := by
+  induction l with
+  | nil => simp
+  | cons x xs ih => by_cases hp : p x = true <;> simp [List.takeWhile_cons, List.dropWhile_cons, hp, ih]
+theorem takeWhile_append_drop (p : Char → Bool) (l : List Char) : l.takeWhile p ++ l.drop (l.takeWhile p).length = l := by
+  rw [drop_takeWhile_len]; exact List.takeWhile_append_dropWhile
+
+theorem m7_fst (nm val r5 n v r7 : Str) (h : m7 nm val r5 = some (n, v, r7)) : n = nm ∧ v = val := by
+  unfold m7 at h
+  split at h
+  · simp at h; exact ⟨h.1.symm, h.2.1.symm⟩
+  · simp only at h
+    split at h
+    · simp at h; exact ⟨h.1.symm, h.2.1.symm⟩
+    · simp at h
+
+theorem den_R5 (k : St → Re.Res St) (pos : Nat) (r4 : Str) (g1 g2 : Option (Nat × Nat)) (nm : Str) :
+    den false R5 k ⟨pos, r4, [g1, g2]⟩ =
+      match m5 nm r4 with
+      | none => .fail
+      | some (_, v, r7) => k ⟨pos + r4.length - r7.length, r7, [g1, some (pos, pos + v.length)]⟩ := by
+  simp only [R5, R6, notqC, den_seq, den_group, den_rep_cls, ct_notq]
+  rw [repDen_star _ _ _ _ _ _ _ (Nat.le_refl 0)]
+  rw [star_of_fail_on_p _ _ _ (by
+    intro pos' x xs hx
+    have hx' : ¬ x = '"' := by simpa using hx
+    simp [den_lit_cons, hx'])]
+  simp only [setCap, List.set_cons_succ, List.set_cons_zero]
+  unfold m5
+  have hlen := takeWhile_len_le (fun x => decide (x ≠ '"')) r4
+  generalize hval : r4.takeWhile (fun x => decide (x ≠ '"')) = val at hlen
+  cases hd : r4.drop val.length with
+  | nil => simp [den_lit_nil, hd]
+  | cons y ys =>
+    have hl := congrArg List.length hd
+    simp only [List.length_drop, List.length_cons] at hl
+    by_cases hy : y = '"'
+    · subst hy
+      simp only [den_lit_cons, if_true, setCap, List.set_cons_succ, List.set_cons_zero]
+      rw [den_R7 _ _ _ _ nm val]
+      simp only [hd]
+      cases hm : m7 nm val ys with
+      | none => rfl
+      | some t =>
+        obtain ⟨n, v, r7⟩ := t
+        obtain ⟨_, rfl⟩ := m7_fst _ _ _ _ _ _ hm
+        simp only
+        apply st_pos_congr; omega
+    · simp [den_lit_cons, hy, hd]
+
+
+theorem m5_fst (nm r4 n v r7 : Str) (h : m5 nm r4 = some (n, v, r7)) : n = nm := by
+  unfold m5 at h
+  simp only at h
+  split at h
+  · exact (m7_fst _ _ _ _ _ _ h).1
+  · simp at h
+
+theorem m3_fst (nm r3 n v r7 : Str) (h : m3 nm r3 = some (n, v, r7)) : n = nm := by
+  unfold m3 at h
+  split at h
+  · exact m5_fst _ _ _ _ _ h
+  · simp at h
+
+theorem den_R3 (k : St → Re.Res St) (pos : Nat) (r3 : Str) (g1 g2 : Option (Nat × Nat)) (nm : Str) :
+    den false R3 k ⟨pos, r3, [g1, g2]⟩ =
+      match m3 nm r3 with
+      | none => .fail
+      | some (_, v, r7) => k ⟨pos + r3.length - r7.length, r7, [g1, some (pos + 2, pos + 2 + v.length)]⟩ := by
+  simp only [R3, R4, den_seq]
+  cases r3 with
+  | nil => simp [m3, den_lit_nil]
+  | cons x xs =>
+    by_cases hx : x = ' '
+    · subst hx
+      cases xs with
+      | nil => simp [m3, den_lit_cons, den_lit_nil, den_seq]
+      | cons y ys =>
+        by_cases hy : y = '"'
+        · subst hy
+          simp only [den_lit_cons, if_true, m3, den_seq]
+          rw [den_R5 _ _ _ _ _ nm]
+          cases hm : m5 nm ys with
+          | none => rfl
+          | some t =>
+            obtain ⟨n, v, r7⟩ := t
+            simp only [List.length_cons]
+            apply st_pos_congr; omega
+        · simp [m3, den_lit_cons, hy, den_seq]
+    · simp [m3, den_lit_cons, hx]
+
+theorem isLetter_ne_space (x : Char) (h : isLetter x = true) : ¬ x = ' ' := by
+  intro e; subst e; revert h; decide
+theorem isUpper_space : isUpper ' ' = false := by decide
+
+theorem den_R2 (k : St → Re.Res St) (pos : Nat) (r1 : Str) :
+    den false R2 k ⟨pos, r1, [none, none]⟩ =
+      match m2 r1 with
+      | none => .fail
+      | some (n, v, r7) =>
+        k ⟨pos + r1.length - r7.length, r7,
+          [some (pos, pos + n.length), some (pos + n.length + 2, pos + n.length + 2 + v.length)]⟩ := by
+  simp only [R2, upC, letC, den_seq, den_group, den_rep_cls, ct_letter]
+  cases r1 with
+  | nil => simp [m2, den_cls_nil]
+  | cons c r2 =>
+    simp only [den_cls_cons, ct_upper]
+    by_cases hc : isUpper c = true
+    · simp only [hc, if_true, repDen_plus, m2, den_rep_cls, ct_letter]
+      cases r2 with
+      | nil => simp
+      | cons x xs =>
+        by_cases hx : isLetter x = true
+        · simp only [hx, if_true, List.takeWhile_cons]
+          rw [star_of_fail_on_p _ _ _ (by
+            intro pos' y ys hy
+            have hy' := isLetter_ne_space y hy
+            simp [R3, den_seq, den_lit_cons, hy'])]
+          simp only [setCap, List.set_cons_succ, List.set_cons_zero, List.length_cons, List.drop_succ_cons,
+            List.isEmpty_cons, Bool.false_eq_true, if_false]
+          rw [den_R3 _ _ _ _ _ (c :: x :: xs.takeWhile isLetter)]
+          have hlen := takeWhile_len_le isLetter xs
+          cases hm : m3 (c :: x :: xs.takeWhile isLetter) (xs.drop (xs.takeWhile isLetter).length) with
+          | none => rfl
+          | some t =>
+            obtain ⟨n, v, r7⟩ := t
+            have hn := m3_fst _ _ _ _ _ hm
+            subst hn
+            simp only [List.length_cons, List.length_drop]
+            have e1 : pos + 1 + 1 + (xs.takeWhile isLetter).length = pos + ((xs.takeWhile isLetter).length + 1 + 1) := by
+              omega
+            rw [e1]
+            have he : (List.takeWhile (fun x => isLetter x) xs).length = (xs.takeWhile isLetter).length := rfl
+            apply st_pos_congr; omega
+        · simp [hx, List.takeWhile_cons]
+    · simp [hc, m2]
+
+
+/-- where the tag name starts, relative to the `[` -/
+def tagOff (rest : Str) : Nat := match rest with | _ :: ' ' :: _ => 2 | _ => 1
+
+theorem m2_space (xs : Str) : m2 (' ' :: xs) = none := by simp [m2, isUpper_space]
+
+theorem den_tag (k : St → Re.Res St) (pos : Nat) (rest : Str) :
+    den false tagRe k ⟨pos, rest, [none, none]⟩ =
+      match matchTagAt rest with
+      | none => .fail
+      | some (n, v, r7) =>
+        k ⟨pos + rest.length - r7.length, r7,
+          [some (pos + tagOff rest, pos + tagOff rest + n.length),
+           some (pos + tagOff rest + n.length + 2, pos + tagOff rest + n.length + 2 + v.length)]⟩ := by
+  rw [matchTagAt_eq]
+  simp only [tagRe, R1, spC, den_seq]
+  cases rest with
+  | nil => simp [den_lit_nil]
+  | cons b r0 =>
+    by_cases hb : b = '['
+    · subst hb
+      simp only [den_lit_cons, if_true, den_seq, den_rep_cls, ct_sp, repDen_opt]
+      cases r0 with
+      | nil => simp [den_R2, m1, m2]
+      | cons x xs =>
+        by_cases hx : x = ' '
+        · subst hx
+          simp only [beq_self_eq_true, if_true, m1, tagOff]
+          rw [den_R2 k (pos + 1) (' ' :: xs), m2_space]
+          simp only [orFail_self_fail]
+          rw [den_R2]
+          cases hm : m2 xs with
+          | none => rfl
+          | some t =>
+            obtain ⟨n, v, r7⟩ := t
+            simp only [List.length_cons]
+            have e1 : pos + 1 + 1 = pos + 2 := rfl
+            rw [e1]
+            apply st_pos_congr; omega
+        · have hx' : (x == ' ') = false := by simpa using hx
+          simp only [hx', Bool.false_eq_true, if_false, m1, tagOff]
+          rw [den_R2]
+          cases hm : m2 (x :: xs) with
+          | none => simp [hx, hm]
+          | some t =>
+            obtain ⟨n, v, r7⟩ := t
+            simp [hx, hm]
+            apply st_pos_congr; omega
+    · simp [den_lit_cons, hb]
+
+
+/-! ### the texts of a tag match -/
+def TagShape (rest n v r7 : Str) : Prop :=
+  ∃ pre sp2, rest = pre ++ (n ++ (' ' :: '"' :: (v ++ ('"' :: (sp2 ++ ']' :: r7))))) ∧ pre.length = tagOff rest
+
+theorem m7_shape (nm val r5 n v r7 : Str) (h : m7 nm val r5 = some (n, v, r7)) : ∃ sp2, r5 = sp2 ++ ']' :: r7 := by
+  unfold m7 at h
+  split at h
+  · simp at h; exact ⟨[' '], by simp [h.2.2]⟩
+  · simp only at h
+    split at h
+    · simp at h; exact ⟨[], by simp [h.2.2]⟩
+    · simp at h
+
+theorem m5_shape (nm r4 n v r7 : Str) (h : m5 nm r4 = some (n, v, r7)) :
+    ∃ sp2, r4 = v ++ ('"' :: (sp2 ++ ']' :: r7)) := by
+  unfold m5 at h
+  simp only at h
+  split at h
+  · rename_i r5 heq
+    obtain ⟨sp2, h2⟩ := m7_shape _ _ _ _ _ _ h
+    obtain ⟨_, hv⟩ := m7_fst _ _ _ _ _ _ h
+    refine ⟨sp2, ?_⟩
+    have := takeWhile_append_drop (fun x => decide (x ≠ '"')) r4
+    rw [heq, h2, ← hv] at this
+    exact this.symm
+  · simp at h
+
+theorem m3_shape (nm r3 n v r7 : Str) (h : m3 nm r3 = some (n, v, r7)) :
+    ∃ sp2, r3 = ' ' :: '"' :: (v ++ ('"' :: (sp2 ++ ']' :: r7))) := by
+  unfold m3 at h
+  split at h
+  · obtain ⟨sp2, h2⟩ := m5_shape _ _ _ _ _ h
+    exact ⟨sp2, by rw [h2]⟩
+  · simp at h
+
+theorem m2_shape (r1 n v r7 : Str) (h : m2 r1 = some (n, v, r7)) :
+    ∃ sp2, r1 = n ++ (' ' :: '"' :: (v ++ ('"' :: (sp2 ++ ']' :: r7)))) := by
+  unfold m2 at h
+  split at h
+  · rename_i c r2
+    split at h
+    · simp only at h
+      split at h
+      · simp at h
+      · obtain ⟨sp2, h2⟩ := m3_shape _ _ _ _ _ h
+        have hn := m3_fst _ _ _ _ _ h
+        refine ⟨sp2, ?_⟩
+        have := takeWhile_append_drop isLetter r2
+        rw [h2] at this
+        rw [hn]
+        exact (congrArg (c :: ·) this).symm.trans (by simp)
+    · simp at h
+  · simp at h
+
+theorem matchTagAt_shape (rest n v r7 : Str) (h : matchTagAt rest = some (n, v, r7)) : TagShape rest n v r7 := by
+  rw [matchTagAt_eq] at h
+  split at h
+  · rename_i r0
+    unfold m1 at h
+    cases r0 with
+    | nil => simp [m2] at h
+    | cons x xs =>
+      by_cases hx : x = ' '
+      · subst hx
+        simp only at h
+        obtain ⟨sp2, h2⟩ := m2_shape _ _ _ _ h
+        exact ⟨['[', ' '], sp2, by rw [h2]; simp, by simp [tagOff]⟩
+      · simp [hx] at h
+        obtain ⟨sp2, h2⟩ := m2_shape _ _ _ _ h
+        exact ⟨['['], sp2, by rw [h2]; simp, by simp [tagOff, hx]⟩
+  · simp at h
+
+/-! ## pattern 4 : `"[^"]*"|[ \t\r\n]+` -/
+theorem den_alt (a b : Re) (k : St → Re.Res St) (st : St) :
+    den false (.alt a b) k st = orFail (den false a k st) (den false b k st) := rfl
+theorem isPbnWs_quote : isPbnWs '"' = false := by decide
+
+theorem den_vos (k : St → Re.Res St) (pos : Nat) (c : Char) (r : Str) :
+    den false vosRe k ⟨pos, c :: r, []⟩ =
+      if c = '"' then
+        (match r.drop (r.takeWhile (· ≠ '"')).length with
+          | '"' :: rest' => k ⟨pos + (r.takeWhile (· ≠ '"')).length + 2, rest', []⟩
+          | _ => .fail)
+      else if isPbnWs c then star isPbnWs k [] (pos + 1) r
+      else .fail := by
+  simp only [vosRe, notqC, wsC, den_alt, den_seq, den_lit_cons, den_rep_cls, ct_notq, ct_ws, repDen_plus]
+  by_cases hc : c = '"'
+  · subst hc
+    simp only [if_true, isPbnWs_quote, Bool.false_eq_true, if_false, orFail_self_fail, den_seq, den_rep_cls, ct_notq]
+    rw [repDen_star _ _ _ _ _ _ _ (Nat.le_refl 0)]
+    rw [star_of_fail_on_p _ _ _ (by
+      intro pos' x xs hx
+      have hx' : ¬ x = '"' := by simpa using hx
+      simp [den_lit_cons, hx'])]
+    cases hd : r.drop (r.takeWhile (fun x => decide (x ≠ '"'))).length with
+    | nil => simp [den_lit_nil]
+    | cons y ys =>
+      by_cases hy : y = '"'
+      · subst hy
+        simp only [den_lit_cons, if_true]
+        apply st_pos_congr; omega
+      · simp [den_lit_cons, hy]
+  · simp only [hc, if_false, orFail_fail]
+
 end Bridge.RegexPbn
